@@ -22,7 +22,7 @@ BUDGET = {"quick": {"shards": 16, "examples": 250},
 ASSUMPTIONS = ["order of the other axis in the result is not part of the "
                "property (compared as a duplicate-free set)"]
 
-UNI = ["U%d" % i for i in range(6)] + ["u10", "u2"]
+UNI = ["U%d" % i for i in range(6)] + ["u10", "u2", "Uncultured;k__7 x"]
 
 
 @st.composite
@@ -41,7 +41,9 @@ def cases(draw, tier):
     for j in range(k):
         n_axis = draw(st.integers(1, 3))
         axis_ids = ["t%d_%s" % (j, x) for x in
-                    draw(st.lists(st.sampled_from(["a", "b", "c", "d"]),
+                    draw(st.lists(st.sampled_from(["a", "b", "c", "d", "ee",
+                                                   "a longer id/10",
+                                                   "x" * 23]),
                                   min_size=n_axis, max_size=n_axis,
                                   unique=True))]
         if style == "identical":
@@ -100,9 +102,19 @@ def check(case, rec):
     def run():
         if case["entry"] == "method_single":
             return tabs[0].concat(tabs[1], axis=axis)
+        arg = list(tabs) if case["entry"] == "function" else list(tabs[1:])
+        held = list(arg)
         if case["entry"] == "function":
-            return biom.concat(list(tabs), axis=axis)
-        return tabs[0].concat(list(tabs[1:]), axis=axis)
+            r = biom.concat(arg, axis=axis)
+        else:
+            r = tabs[0].concat(arg, axis=axis)
+        # the caller's operand list is an input too
+        if len(arg) != len(held) or any(a is not b
+                                        for a, b in zip(arg, held)):
+            raise Violation("operand-list-modified", "concat changed the "
+                            "list of operands it was given: %d -> %d entries"
+                            % (len(held), len(arg)))
+        return r
 
     if case["overlap"]:
         try:
